@@ -256,6 +256,9 @@ pub struct SourceSpec {
     /// the callback closure owns an Async adapter of the same loop (dropped with the callback)
     #[serde(default)]
     pub owns_adapter: bool,
+    /// (lifecycle sources) the n-th call of before_sleep fails
+    #[serde(default)]
+    pub bs_fail: Option<u8>,
 }
 
 #[derive(Clone, Copy, Debug, PartialEq, Eq, Serialize, Deserialize, Hash)]
